@@ -46,6 +46,28 @@ def shape_term(t):
     return '*'
 
 
+def tuple_terms_of(stm):
+    """the function terms (with arguments) written in the tuples of aggregate elements, in textual order: an entity used as the counted value"""
+    found = []
+
+    def visit(x):
+        if isinstance(x, A.AST):
+            if x.ast_type in (A.ASTType.BodyAggregateElement, A.ASTType.HeadAggregateElement):
+                for t in x.terms:
+                    if t.ast_type == A.ASTType.Function and not t.external and len(t.arguments) > 0 and _IDENT.match(t.name):
+                        found.append(t)
+            for k in x.child_keys:
+                visit(getattr(x, k))
+        elif isinstance(x, (list, tuple)) or hasattr(x, '__iter__') and not isinstance(x, str):
+            try:
+                for y in x:
+                    visit(y)
+            except TypeError:
+                pass
+    visit(stm)
+    return found
+
+
 def atoms_of(stm):
     """all symbolic atoms (as Function terms) occurring in a statement, in textual order"""
     found = []
